@@ -359,6 +359,115 @@ def replay_one(rep, r, rng):
         rep.property_failure(r, f"schema differs from its snapshot at {paths}", region=region_of(paths, "", c))
 
 
+def run_models(rep, rng, n):
+    """class-based models: no operation of the public API changes the schema a model compiles to (it is cached per class and
+    shared by every later use)"""
+    import pandera as pa
+    ops = ["empty", "validate_good", "validate_bad", "validate_bad_lazy", "to_schema", "to_yaml", "to_json_schema", "strategy",
+           "example", "repr", "get_metadata", "subclass"]
+    for i in range(n):
+        coerce = rng.random() < 0.3
+        body = {"__annotations__": {"a": int, "b": float}, "a": pa.Field(ge=0), "b": pa.Field(nullable=True),
+                "Config": type("Config", (), {"coerce": coerce, "strict": rng.random() < 0.5})}
+        M = type(f"M{i}", (pa.DataFrameModel,), body)
+        good = pd.DataFrame({"a": [1, 2], "b": [1.5, None]})
+        coercible = pd.DataFrame({"a": ["1", "2"], "b": [1, 2]})
+        bad = pd.DataFrame({"a": [-1, 2], "b": [1.5, 2.5]})
+        probes = [good, coercible, bad]
+        base = fp(M.to_schema())
+        base_v = [verdict(M.to_schema(), p) for p in probes]
+        hist = []
+        for _ in range(rng.randint(1, 6)):
+            op = rng.choice(ops)
+            hist.append(op)
+            with warnings.catch_warnings():
+                warnings.simplefilter("ignore")
+                try:
+                    if op == "empty":
+                        M.empty()
+                    elif op == "validate_good":
+                        M.validate(good.copy())
+                    elif op == "validate_bad":
+                        M.validate(bad.copy())
+                    elif op == "validate_bad_lazy":
+                        M.validate(bad.copy(), lazy=True)
+                    elif op == "to_schema":
+                        M.to_schema()
+                    elif op == "to_yaml":
+                        M.to_yaml()
+                    elif op == "to_json_schema":
+                        M.to_json_schema()
+                    elif op == "strategy":
+                        M.strategy(size=2)
+                    elif op == "example":
+                        from .c13 import draws_of
+                        draws_of(M.strategy(size=1), 1)
+                    elif op == "repr":
+                        repr(M.to_schema())
+                    elif op == "get_metadata":
+                        M.get_metadata()
+                    elif op == "subclass":
+                        type(f"Sub{i}", (M,), {"__annotations__": {"c": str}, "Config": type("Config", (), {"coerce": True})}).to_schema()
+                except Exception:  # noqa: BLE001
+                    pass
+            now = fp(M.to_schema())
+            rep.count("model-op:" + op)
+            if now != base:
+                paths = diff_paths(json.loads(base), json.loads(now))
+                rep.property_failure({"mode": "model", "coerce": coerce, "history": list(hist)},
+                                     f"after {op} the schema of the model differs from its snapshot at {paths}")
+                break
+        else:
+            v = [verdict(M.to_schema(), p) for p in probes]
+            if v != base_v:
+                rep.property_failure({"mode": "model", "coerce": coerce, "history": list(hist)},
+                                     f"verdicts of the model's schema changed over the history: {base_v} -> {v}")
+        rep.case({"mode": "model", "history": hist}, nontrivial=len(hist) >= 2)
+        rep.evaluations += 1
+
+
+def run_polars_histories(rep, rng, n):
+    """polars schemas: validating (passing or failing, eager or lazy, DataFrame or LazyFrame) leaves the schema as it was —
+    with a dataframe-level dtype, coercion and add_missing_columns in particular"""
+    try:
+        import polars as pl
+        import pandera.polars as pap
+    except Exception:  # noqa: BLE001
+        return
+    for _ in range(n):
+        frame_dtype = rng.choice([None, pl.Float64, pl.Int64])
+        mk = lambda: pap.DataFrameSchema(  # noqa: E731
+            {"a": pap.Column(pl.Int64, pap.Check.ge(0), coerce=rng.random() < 0.5),
+             "b": pap.Column(pl.Float64, nullable=True, required=rng.random() < 0.7)},
+            dtype=frame_dtype, coerce=rng.random() < 0.3, add_missing_columns=rng.random() < 0.3, strict=rng.random() < 0.3)
+        schema = mk()
+        frames = [pl.DataFrame({"a": [1, 2], "b": [1.5, None]}), pl.DataFrame({"a": [-1, 2], "b": [1.0, 2.0]}),
+                  pl.DataFrame({"a": ["1", "x"]}), pl.DataFrame({"a": [1.5, 2.5], "b": [1, 2], "zz": [0, 0]})]
+        base = fp(schema)
+        hist = []
+        for _ in range(rng.randint(1, 5)):
+            fi = rng.randrange(len(frames))
+            f = frames[fi]
+            lazy = rng.random() < 0.5
+            as_lazy = rng.random() < 0.5
+            hist.append([fi, lazy, as_lazy])
+            with warnings.catch_warnings():
+                warnings.simplefilter("ignore")
+                try:
+                    schema.validate(f.lazy() if as_lazy else f, lazy=lazy)
+                except Exception:  # noqa: BLE001
+                    pass
+            now = fp(schema)
+            rep.count("polars-history:validate")
+            if now != base:
+                paths = diff_paths(json.loads(base), json.loads(now))
+                rep.property_failure({"mode": "polars-history", "frame_dtype": str(frame_dtype), "history": hist},
+                                     f"polars: after validating, the schema differs from its snapshot at {paths}")
+                break
+        rep.case({"mode": "polars-history", "history": hist}, nontrivial=len(hist) >= 2)
+        rep.evaluations += 1
+
+
 def run(tier, replay=None):
     rep = Report(PROP, tier)
     regenerate(("skeletons",))
@@ -366,7 +475,12 @@ def run(tier, replay=None):
     rep.audit["modules"] = MODULES
     rng = rng_for(PROP)
     if replay:
-        replay_one(rep, json.loads(open(replay).read())["case"], rng)
+        rc_ = json.loads(open(replay).read())["case"]
+        if rc_.get("mode") in ("model", "polars-history"):
+            run_models(rep, rng_for(PROP, "models"), 60)
+            run_polars_histories(rep, rng_for(PROP, "polars"), 80)
+            return rep.finish(rule="replay of the model / polars history sweeps (deterministic under VERIF_SEED)")
+        replay_one(rep, rc_, rng)
         return rep.finish(rule="replay")
     n = 400 if tier == "quick" else 10000
     for r in corpus_cases(PROP):
@@ -378,6 +492,8 @@ def run(tier, replay=None):
             run_history(rep, c, rng, rng.randint(1, 8))
         except Exception as e:  # noqa: BLE001
             rep.count("harness-exception:" + type(e).__name__)
+    run_models(rep, rng_for(PROP, "models"), 60 if tier == "quick" else 1500)
+    run_polars_histories(rep, rng_for(PROP, "polars"), 80 if tier == "quick" else 2000)
     return rep.finish(
         rule="random operation histories (1-8 operations out of validate passing/failing/eager/lazy, to_yaml, to_json, "
              "to_script, statistics, repr/str/==, copy/deepcopy, every transforming method, coerce_dtype, strategy, "
